@@ -15,6 +15,12 @@ CHECKS = {
  "C13": ("other", "interprocedural dominance over the module call graph (write-reaching calls confined to err==nil continuations, no reject after a write, signature check on every static path), error-use analysis, interface-satisfaction and constructor/dynamic-type agreement over package erro, DBM equivalence of count guards",
          "Decides the ordering discipline that makes a rejected configuration leave nothing patched on every path, that no in-module error is dropped, that the cause chain is walkable and each typed cause constructible, and that count/size reject conditions compare the quantities the property names. That each mistake class is detected for every value is not decided.",
          "Trusted: go/ssa, module call graph (static calls + invokes on module interfaces); three per-construct suppressions listed with reasons in c13.go."),
+ "C12": ("other", "SSA rules over Builder/Cached* lookups (structural key equality of consult/store, guard analysis of hand-back), must-pass dataflow (Apply/Cancel clear the continuation, reset on every return path, Cancel sets its flag), constant propagation along static call paths (caller depth)",
+         "Decides the cache-continuity and invalidation discipline behind 'most recent instruction wins' for every operation history, because it holds on every CFG path of every lookup/Apply/Cancel method. Does not decide the target's run-time behaviour.",
+         "Trusted: go/ssa; exported API names Builder, Mocker, When are the anchors; private helpers are found by role."),
+ "C20": ("other", "SSA data-dependence (hand-out derives from the atomic RMW result, not from an earlier load), DBM bounds guard, constant evaluation of mmap arguments, tag/dispatch agreement, error-use analysis",
+         "Decides, for every interleaving, the structural condition that makes overlapping hand-outs impossible in the fallback allocator (base computed from the atomic reservation), that hand-out is bounded by the scanned reserve, that failures carry an error, and that Acquire/Write agree on region kinds. Kernel-side disjointness of mmap regions and executability are not decided.",
+         "Trusted: go/ssa; sync/atomic semantics; numeric values of syscall PROT_/MAP_ constants on linux."),
 }
 NA = {}
 PENDING_REASON = "check not built yet in this revision (planned per DESIGN.md section 3); not claimed until it runs"
